@@ -143,6 +143,14 @@ func c08Run(c *Ctx) {
 			}
 		}
 	}
+	// an unlisted -or-later form (which the scanner rewrites) BEFORE the spelling under test and a '+' term
+	// at various distances AFTER it: look-ahead that mixes the rewritten buffer with the caller's offsets
+	for _, s := range []string{
+		"Apache-2.0-or-later OR " + hole + " AND MIT+", "Apache-2.0-or-later OR " + hole + " OR Zlib+", "Apache-2.0-or-later AND " + hole + " OR ISC+",
+		"MIT-or-later AND Apache-2.0-or-later AND " + hole + " AND (Apache-1.1+)", "Apache-2.0-or-later+ OR " + hole + " AND 0BSD+", "(Zlib-or-later) AND " + hole + " AND X11+",
+	} {
+		treeTemplates = append(treeTemplates, s)
+	}
 	c.Bound("contexts", map[string]any{"tree_templates": len(treeTemplates), "max_leaves": maxLeaves, "exception": strings.TrimSpace(exc), "ids": len(all)})
 
 	run := func(cs c08Case, nontrivialHint bool) {
@@ -236,7 +244,16 @@ func c08Run(c *Ctx) {
 					run(c08Case{S1: p[0], S2: p[1], Role: "allowed", Expr: q + ex[1], Allowed: []string{hole + ex[0]}}, sameFam)
 				}
 			}
+			// a wide list: the other leaves of the templates and the LAST version of x's family, so that reading
+			// x as 'x or later' (or as a different version) changes the verdict
+			wide := []string{"MIT", "LicenseRef-a", "Zlib", "ISC", "0BSD", "X11", "Apache-1.1"}
+			if inTable {
+				if fam := T().Ranges[famX.Fam]; len(fam) > 0 && len(fam[len(fam)-1]) > 0 && Valid1(fam[len(fam)-1][0]) == 1 {
+					wide = append(wide, fam[len(fam)-1][0])
+				}
+			}
 			for _, tt := range treeTemplates {
+				run(c08Case{S1: p[0], S2: p[1], Role: "expr", Expr: tt, Allowed: wide}, true)
 				run(c08Case{S1: p[0], S2: p[1], Role: "expr", Expr: tt, Allowed: []string{x}}, true)
 				run(c08Case{S1: p[0], S2: p[1], Role: "expr", Expr: tt, Allowed: []string{"MIT", "LicenseRef-a"}}, false)
 				run(c08Case{S1: p[0], S2: p[1], Role: "allowed", Expr: fill(tt, x), Allowed: []string{"MIT", hole, "LicenseRef-a"}}, true)
